@@ -270,7 +270,13 @@ impl Mux {
                         length -= size;
                     }
                 }
-                _ => unreachable!("bad FrameKind"),
+                // Both frame kind bits set: not a valid frame kind.
+                _ => {
+                    return Err(RunError::Protocol(anyhow::format_err!(
+                        "invalid frame kind in header {:#06x}",
+                        header.0
+                    )))
+                }
             }
         }
     }
